@@ -304,6 +304,23 @@ def chart_value(sc):
                 transitions=trans)
 
 
+def make_recording_interpreter(holder):
+    """Interpreter subclass that records the result of _select_transitions (fail-soft: if the
+    implementation no longer has such a method nothing is recorded and nothing breaks)."""
+    class RecInterp(Interpreter):
+        pass
+    if hasattr(Interpreter, '_select_transitions'):
+        def _select_transitions(self, *a, **kw):
+            r = Interpreter._select_transitions(self, *a, **kw)
+            try:
+                holder['selected'] = [owner_key(self, t)[1] for t in r]
+            except Exception:  # noqa
+                holder.pop('selected', None)
+            return r
+        RecInterp._select_transitions = _select_transitions
+    return RecInterp
+
+
 class Scenario:
     """One monitored interpreter with its listeners, driven operation by operation."""
 
@@ -313,8 +330,10 @@ class Scenario:
         self.klass = make_recording_evaluator(self.rec)
         self.sc = sc
         self.clock = SimulatedClock()
-        self.interp = Interpreter(sc, evaluator_klass=self.klass, initial_context=initial_context,
-                                  clock=self.clock, ignore_contract=ignore_contract)
+        self.sel_holder = {}
+        self.interp = make_recording_interpreter(self.sel_holder)(
+            sc, evaluator_klass=self.klass, initial_context=initial_context,
+            clock=self.clock, ignore_contract=ignore_contract)
         self.rec.interp_id(self.interp)   # id 0
         self.fuel = fuel
         self.listeners = []      # (kind, id, python listener object)
@@ -427,6 +446,7 @@ class Scenario:
         wpre['logs'] = {lid: () for lid in self.logs}
         wpre['calls'] = {lid: () for lid in self.calls}
         out = None
+        self.sel_holder.pop('selected', None)
         try:
             if op[0] == 'exec':
                 now = self.clock.time
@@ -444,7 +464,8 @@ class Scenario:
         post = snap_interp(self.interp, self.rec)
         wpost = self.world()
         calls = self.rec.calls[n0:]
-        return dict(op=op, pre=pre, wpre=wpre, out=out, post=post, wpost=wpost, calls=calls)
+        return dict(op=op, pre=pre, wpre=wpre, out=out, post=post, wpost=wpost, calls=calls,
+                    selected=self.sel_holder.get('selected'))
 
 
 def macro_value(interp, m):
